@@ -6,6 +6,7 @@ import (
 	"fmt"
 	"os"
 	"path/filepath"
+	"runtime/debug"
 	"sort"
 	"strconv"
 	"strings"
@@ -76,6 +77,9 @@ func (c *Ctx) run(id string) {
 	func() {
 		defer func() {
 			if r := recover(); r != nil {
+				if os.Getenv("ARTCHECK_DEBUG") == "panic" {
+					fmt.Fprintf(os.Stderr, "PANIC in %s: %v\n%s\n", id, r, debug.Stack())
+				}
 				c.r.add(&Obligation{Rule: id, Key: "analyser panic", Pos: "-", Status: Undecided, Detail: fmt.Sprint("analyser panicked (fail closed): ", r), Props: allProps()})
 			}
 		}()
